@@ -1143,6 +1143,9 @@ class WcParse(Generic[AnyStr]):
                 if self._sequence_range_check(result, value):
                     removed = True
                 end_range = 0
+                # The end of the range may have been longer than one character (an escape),
+                # a hyphen right after it is never a range delimiter.
+                escape_hyphen = i.index
             else:
                 result.append(value)
 
